@@ -272,6 +272,7 @@ theorem sameDesc_refl : ∀ (a : Val), inDomain a = true → sameDesc a a = true
   | .zstk _, h => by simp [inDomain] at h
   | .zcnd _, h => by simp [inDomain] at h
   | .anys _, h => by simp [inDomain] at h
+  | .opv _, h => by simp [inDomain] at h
 
 theorem sameVals_refl : ∀ (xs : List Val), inDomainL xs = true → sameVals xs xs = true
   | [], _ => by simp [sameVals]
@@ -503,6 +504,7 @@ theorem sameDesc_symm : ∀ (a b : Val), inDomain a = true → inDomain b = true
   | .zstk _, _, ha, _, _ => by simp [inDomain] at ha
   | .zcnd _, _, ha, _, _ => by simp [inDomain] at ha
   | .anys _, _, ha, _, _ => by simp [inDomain] at ha
+  | .opv _, _, ha, _, _ => by simp [inDomain] at ha
 
 theorem sameVals_symm : ∀ (xs ys : List Val), inDomainL xs = true → inDomainL ys = true →
     sameVals xs ys = true → sameVals ys xs = true
